@@ -33,6 +33,9 @@ RULE = (
     "explicit 1-D coordinates taken from an existing grid with other dimension names as xarray index coordinates, pandas Index / Series, "
     "lists, tuples (the new grid must have exactly the requested dims); profile end points as rows of int16 / int32 / int64 coordinate "
     "arrays whose squared differences overflow the dtype, Python ints, float32 scalars; "
+    "calls that rely on the documented defaults (scatter() / scatter(size=n) without random_state, grid with only shape or only spacing, "
+    "profile(p1, p2, size)) on every gridder class incl. CheckerBoard, compared with the spelled-out call, RandomState(0) and the method "
+    "signatures; projections in the two-argument form (lambda, def, partial without an inverse keyword) for grid and scatter; "
     "large counts (grids of 2.5e5..6e5 nodes with row counts that are no multiple of small block heights - 700x600, 1201x501 from a spacing, "
     "530x990 projected, 641x479 Trend, ... - and scatter / profile with > 1e5 points, every node and row compared); concurrent calls "
     "(2..4 threads calling grid / scatter / profile on ONE gridder at the same time with different regions, same shape, different "
@@ -73,7 +76,14 @@ _QUICK_FLOORS = {
     "spelling:grid_extra_coords_exactly_zero": 80, "spelling:profile_extra_coords_exactly_zero": 30, "spelling:scatter_extra_coords_exactly_zero": 25,
     "spelling:grid_region=ndarray_float": 190, "spelling:grid_region=ndarray_int": 6, "spelling:grid_shape=ndarray_int": 160,
     "spelling:grid_spacing=ndarray_float": 140, "spelling:grid_spacing=np_float": 90, "spelling:grid_extra_coords=ndarray_float": 60,
-    "spelling:grid_projection=partial": 190, "spelling:grid_projection=function": 190, "spelling:profile_projection=partial": 70,
+    "spelling:grid_projection=partial": 100, "spelling:grid_projection=function": 100, "spelling:profile_projection=partial": 70,
+    "spelling:grid_projection=lambda_two_arguments": 95, "spelling:grid_projection=function_two_arguments": 90,
+    "spelling:grid_projection=partial_two_arguments": 80, "spelling:scatter_projection=lambda_two_arguments": 30,
+    "spelling:scatter_projection=function_two_arguments": 30, "spelling:scatter_projection=partial_two_arguments": 20,
+    # calls that rely on the documented defaults
+    "eval:defaults_as_documented": 60, "eval:signature_defaults": 24, "class:defaults_scatter_without_any_argument": 16,
+    "class:defaults_scatter_size_only": 8, "class:defaults_grid_shape_only": 8, "class:defaults_grid_spacing_only": 8,
+    "class:defaults_profile_positional_only": 8, "class:defaults_gridder=CheckerBoard": 1, "class:defaults_gridder=Spline": 1,
     "spelling:profile_size=np_int": 260, "spelling:profile_point=ndarray_float": 130, "spelling:scatter_random_state=np_int": 110,
     "spelling:scatter_random_state=RandomState": 110, "spelling:scatter_size=np_int": 250,
     # output of one call fed into another; end-point dtypes
@@ -109,9 +119,10 @@ REAL_KINDS = ["spline", "trend", "kneighbors", "chain", "chain_reduce", "vector2
 def plan(tier):
     if tier == "quick":
         return collections.OrderedDict(analytic_grid=150, analytic_coords=70, analytic_profile=60, analytic_scatter=45, real=64, nested=8, history=48,
-                                       large=5, threads=8)
+                                       large=5, threads=8, defaults=20)
     return collections.OrderedDict(analytic_grid=3000, analytic_coords=1400, analytic_profile=1200, analytic_scatter=900, real=1280, nested=160,
-                                   history=960, large=48, threads=160)
+                                   history=960, large=48, threads=160,
+                                   defaults=400)
 
 
 # ----------------------------------------------------------------------
@@ -774,6 +785,8 @@ def run_case(run, tap, stream, index, rng):
             _stream_large(run, rng, vd, LARGE_KINDS[index % len(LARGE_KINDS)])
         elif stream == "threads":
             _stream_threads(run, rng, index)
+        elif stream == "defaults":
+            _stream_defaults(run, rng, vd, DEFAULTS_KINDS[index % len(DEFAULTS_KINDS)])
 
 
 def _stream_analytic_grid(run, rng):
@@ -928,7 +941,7 @@ def _stream_analytic_profile(run, rng):
             run.count("class:profile_integer_valued_end_points")
         else:
             p1, p2 = G.spell_point(rng, p1), G.spell_point(rng, p2)
-        table = gridder.profile(p1, p2, G.spell_count(rng, size), **G.spell_call(rng, kwargs))
+        table = gridder.profile(p1, p2, G.spell_count(rng, size), **G.spell_call(rng, kwargs, inverse=True))
     run.sample("analytic_profile", {"constants": [list(c) for c in gridder.consts], "point1": p1, "point2": p2, "size": size,
                                     "call": {k: (v.describe() if hasattr(v, "describe") else v) for k, v in kwargs.items()},
                                     "table_head": table.head(3)})
@@ -1039,7 +1052,7 @@ def _stream_real(run, rng, vd, kind):
         if rng.random() < 0.4:
             kwargs["projection"] = G.Affine(1.0, float(rng.uniform(-0.3, 0.3)), float(rng.uniform(-0.3, 0.3)), float(rng.uniform(0.6, 1.4)),
                                             0.05 * (e - w), -0.05 * (n - s))
-        gridder.profile(G.spell_point(rng, p1), G.spell_point(rng, p2), G.spell_count(rng, rng.choice([2, 5, 12, 30])), **G.spell_call(rng, kwargs))
+        gridder.profile(G.spell_point(rng, p1), G.spell_point(rng, p2), G.spell_count(rng, rng.choice([2, 5, 12, 30])), **G.spell_call(rng, kwargs, inverse=True))
     for _ in range(3):
         kwargs = G.gen_names(rng, n_comp)
         if rng.random() < 0.5:
@@ -1076,6 +1089,99 @@ def _stream_nested(run, rng, vd):
     board.grid(shape=(6, 9))
     board.scatter(size=25, random_state=int(rng.integers(0, 1000)))
     board.profile((100.0, -2500.0), (3900.0, -200.0), 15)
+
+
+DEFAULTS_KINDS = REAL_KINDS + ["analytic", "analytic_latlon"]
+DOCUMENTED_DEFAULTS = {
+    "grid": {"region": None, "shape": None, "spacing": None, "dims": None, "data_names": None, "projection": None, "coordinates": None},
+    "scatter": {"region": None, "size": 300, "random_state": 0, "dims": None, "data_names": None, "projection": None},
+    "profile": {"dims": None, "data_names": None, "projection": None},
+}
+
+
+def _tables_equal(first, second):
+    return list(first.columns) == list(second.columns) and len(first) == len(second) and \
+        all(_same(first[c].to_numpy(), second[c].to_numpy()) for c in first.columns)
+
+
+def _stream_defaults(run, rng, vd, kind):
+    """
+    Calls that rely on the documented defaults: scatter() / scatter(size=n) without random_state (documented: random_state=0,
+    size=300), grid() with only shape or only spacing, profile(p1, p2, size) - each compared with the same call with the documented
+    defaults spelled out (which the monitors judge argument by argument), with an independent reference where there is one, and
+    with inspect.signature of the method of that very class.
+    """
+    import inspect
+
+    if kind.startswith("analytic"):
+        region, scale = G.gen_region(rng)
+        gridder, n_comp = new_analytic(rng, scale, variant="latlon" if kind.endswith("latlon") else "default")
+        w, e, s, n = region
+        gridder.fit((np.array([w, e, 0.5 * (w + e)]), np.array([s, n, 0.5 * (s + n)])), None)
+        bbox = region
+        register(gridder, bbox)
+    else:
+        gridder, bbox, n_comp = fit_real(rng, vd, kind)
+        register(gridder, bbox)
+    cls = type(gridder).__name__
+    run.count("class:defaults_gridder=" + cls)
+    dims = tuple(type(gridder).dims)
+    names = [("scalars",), ("east_component", "north_component"), ("east_component", "north_component", "vertical_component")][n_comp - 1]
+    w, e, s, n = bbox
+
+    def judge(what, ok, detail):
+        run.evaluated("defaults_as_documented")
+        if not ok:
+            run.violation("defaults_as_documented", "%s on %s does not behave like the call with the documented defaults spelled out" % (what, cls),
+                          dict(detail, gridder=repr(gridder)[:300], data_bounding_box=list(bbox)), key="defaults:" + what.split("(")[0] + ":" + cls)
+
+    # ---- signatures of this class' methods
+    for method, documented in DOCUMENTED_DEFAULTS.items():
+        params = inspect.signature(getattr(type(gridder), method)).parameters
+        found = {k: params[k].default for k in documented if k in params}
+        run.evaluated("signature_defaults")
+        if found != documented:
+            run.violation("signature_defaults", "%s.%s has defaults %r, documented %r" % (cls, method, found, documented),
+                          {"class": cls, "method": method}, key="signature:%s.%s" % (cls, method))
+    # ---- scatter() and scatter(size=n): documented random_state=0, size=300
+    first, again = gridder.scatter(), gridder.scatter()
+    spelled = gridder.scatter(region=list(bbox), size=300, random_state=0, dims=dims, data_names=list(names), projection=None)
+    stream = np.random.RandomState(0)
+    want_e, want_n = stream.uniform(w, e, 300), stream.uniform(s, n, 300)
+    ok = _tables_equal(first, again) and _tables_equal(first, spelled) and len(first) == 300 and dims[1] in first.columns and \
+        np.allclose(first[dims[1]].to_numpy(), want_e, rtol=8 * EPS, atol=0) and np.allclose(first[dims[0]].to_numpy(), want_n, rtol=8 * EPS, atol=0)
+    judge("scatter()", ok, {"first": first.head(5), "second_identical_call": again.head(5), "spelled_out": spelled.head(5),
+                           "reference_easting": want_e[:5], "reference_northing": want_n[:5]})
+    run.count("class:defaults_scatter_without_any_argument", 2)
+    size = int(rng.choice([1, 7, 40]))
+    first = gridder.scatter(size=size)
+    spelled = gridder.scatter(region=tuple(bbox), size=size, random_state=0, dims=list(dims), data_names=tuple(names))
+    stream = np.random.RandomState(0)
+    want_e = stream.uniform(w, e, size)
+    judge("scatter(size=n)", _tables_equal(first, spelled) and np.allclose(first[dims[1]].to_numpy(), want_e, rtol=8 * EPS, atol=0),
+          {"size": size, "first": first.head(5), "spelled_out": spelled.head(5)})
+    run.count("class:defaults_scatter_size_only")
+    # ---- grid with only shape / only spacing
+    shape = (int(rng.integers(2, 9)), int(rng.integers(2, 9)))
+    first = gridder.grid(shape=shape)
+    spelled = gridder.grid(region=list(bbox), shape=shape, dims=dims, data_names=list(names), projection=None, adjust="spacing", pixel_register=False)
+    judge("grid(shape=...)", bool(first.identical(spelled)), {"shape": shape, "first": first, "spelled_out": spelled})
+    run.count("class:defaults_grid_shape_only")
+    spacing = (float((n - s) / rng.uniform(1.5, 7)), float((e - w) / rng.uniform(1.5, 7)))
+    first = gridder.grid(spacing=spacing)
+    spelled = gridder.grid(region=tuple(bbox), spacing=spacing, dims=list(dims), data_names=tuple(names), adjust="spacing", pixel_register=False)
+    judge("grid(spacing=...)", bool(first.identical(spelled)), {"spacing": spacing, "first": first, "spelled_out": spelled})
+    run.count("class:defaults_grid_spacing_only")
+    # ---- profile(p1, p2, size)
+    p1, p2 = gen_profile_points(rng, bbox)
+    size = int(rng.choice([2, 9, 25]))
+    first = gridder.profile(p1, p2, size)
+    spelled = gridder.profile(p1, p2, size, dims=dims, data_names=list(names), projection=None)
+    judge("profile(p1, p2, size)", _tables_equal(first, spelled), {"point1": p1, "point2": p2, "size": size, "first": first.head(5),
+                                                                  "spelled_out": spelled.head(5)})
+    run.count("class:defaults_profile_positional_only")
+    run.sample("defaults:" + kind, {"gridder": repr(gridder)[:200], "default_dims": list(dims), "default_names": list(names),
+                                    "scatter_without_arguments_head": gridder.scatter().head(3)})
 
 
 LARGE_KINDS = ["shape_700x600", "spacing_1201x501", "projection_530x990", "trend_641x479", "scatter_profile_1e5", "pixel_603x701",
@@ -1362,7 +1468,7 @@ def _stream_history(run, rng, vd, kind):
                 kwargs["extra_coords"] = 7.5
             size = G.spell_count(rng, rng.choice([1, 2, 6, 15]))
             p1, p2 = G.spell_point(rng, p1), G.spell_point(rng, p2)
-            G.spell_call(rng, kwargs)
+            G.spell_call(rng, kwargs, inverse=True)
             call = lambda: gridder.profile(p1, p2, size, **kwargs)  # noqa: E731
         else:
             if given["region"]:
